@@ -158,7 +158,7 @@ class Sp3dParser(ChainParser):
         # PG08   7359.468852 -20268.667422  15550.334189    -25.778533  8  6  8 113
         data_parser = ParserDef(
             end_marker=lambda _l, _ln, next_line: next_line.startswith("*"),
-            label=lambda line, _ln: line[0],
+            label=lambda line, _ln: line[:1],  # an empty line has no label and is skipped
             parser_def={
                 "*": {
                     "parser": self._parse_date,
